@@ -697,6 +697,14 @@ func (d *Document) addHeaderReference(headerType HeaderFooterType, headerID stri
 		sectPr.XmlnsR = "http://schemas.openxmlformats.org/officeDocument/2006/relationships"
 	}
 
+	// 同一类型只保留一个引用：已存在则更新为最新的关系ID
+	for _, ref := range sectPr.HeaderReferences {
+		if ref != nil && ref.Type == string(headerType) {
+			ref.ID = headerID
+			return
+		}
+	}
+
 	headerRef := &HeaderFooterReference{
 		Type: string(headerType),
 		ID:   headerID,
@@ -712,6 +720,14 @@ func (d *Document) addFooterReference(footerType HeaderFooterType, footerID stri
 	// 确保设置关系命名空间
 	if sectPr.XmlnsR == "" {
 		sectPr.XmlnsR = "http://schemas.openxmlformats.org/officeDocument/2006/relationships"
+	}
+
+	// 同一类型只保留一个引用：已存在则更新为最新的关系ID
+	for _, ref := range sectPr.FooterReferences {
+		if ref != nil && ref.Type == string(footerType) {
+			ref.ID = footerID
+			return
+		}
 	}
 
 	footerRef := &FooterReference{
